@@ -162,7 +162,9 @@ def contexts(ops):
 
 
 def history_flags(ops, ctx):
-    return {"getpd": any(o.startswith("getpd") for o in ops), "dirty": any(c.endswith("/dirty") for c in ctx)}
+    dirty = any(c.endswith("/dirty") for c in ctx)
+    return {"getpd": any(o.startswith("getpd") for o in ops), "dirty": dirty,
+            "adds_start_later": dirty or any(o.startswith("addstart") for o in ops)}
 
 
 def oracle(planner, ops, out, rc, err):
@@ -250,8 +252,14 @@ class Runner:
 
     def run(self, planner, seed, ops, trace=0, timeout=240):
         script = [header(planner, seed, trace)] + ops
-        out, rc, err = self.ck.run_bin(self.hbin, script, timeout=timeout)
-        return script, out, rc, err
+        for attempt in range(40):
+            out, rc, err = self.ck.run_bin(self.hbin, script, timeout=timeout)
+            # the shared libompl cache may be mid-rebuild by another check (loader error, not a result): wait, retry
+            if rc == 127 or (err and "error while loading shared libraries" in err):
+                time.sleep(3)
+                continue
+            return script, out, rc, err
+        raise RuntimeError("harness cannot load libompl (cache being rebuilt?): %s" % (err or "")[-300:])
 
 
 def probe_first_solution(rn, planner, seed):
@@ -288,13 +296,19 @@ def judge_run(ck, rn, planner, seed, hname, k, K, ops, stats):
             "rc": rc, "err": err, "fails": fails, "ctx": ctx, "nontrivial": nontrivial}
 
 
+REPORTED = set()
+
+
 def report_fail(ck, rn, res):
-    """one report per (planner, clause, ctx) and run; known findings are matched on those keys."""
-    seen = set()
+    """one report per (planner, clause, ctx) (the first run that shows it; runs are ordered by k, so that is the
+    smallest interruption index); known findings are matched on those keys."""
+    seen = REPORTED
     new_violation = False
     for (i, clause, text) in res["fails"]:
         c = res["ctx"][i] if i < len(res["ctx"]) else "end"
-        key = (clause, c)
+        if c == "-":
+            c = res["ops"][i].split()[0]
+        key = (res["planner"], clause, c)
         if key in seen:
             continue
         seen.add(key)
@@ -541,6 +555,7 @@ def run(ck):
     hbin = ck.build_harness("proto", ["proto.cpp"], link_ompl=True)
     rn = Runner(ck, hbin)
     quick = ck.tier == "quick"
+    REPORTED.clear()
     stats = {"after": {}, "status": collections.Counter(), "motion-invalid": {}}
     hs = histories(ck.tier)
     workers = min(16, (os.cpu_count() or 4))
@@ -600,7 +615,7 @@ def run(ck):
         ck.count("ops", len(res["ops"]))
         if res["fails"]:
             ck.count("runs-with-oracle-failures")
-            if bad < 6 and report_fail(ck, rn, res):
+            if bad < 12 and report_fail(ck, rn, res):
                 bad += 1
         if len(ck.samples) < 4 and res["out"] and res["nontrivial"]:
             ck.sample({"planner": res["planner"], "history": res["history"], "k": res["k"], "ops": [o[:60] for o in res["ops"]],
